@@ -70,8 +70,13 @@ def readTail (head : Bool) : List Act := if head then [.statign, .statign] else 
 /-- the program of a `byFd` reader after its open. -/
 def afterOpen (head : Bool) : List Act := [.rstat] ++ readAttrProg ++ readTail head
 
+/-- what a reader has collected when its program is exhausted: `observe` without the body (which is
+    attached from the descriptor when the answer is built). -/
+def accOf (ino : Inode) (head : Bool) : ReadResp := { observe ino head with body := none }
+
 theorem solo_tail (ino : Inode) (head : Bool) (l : Local) (hp : l.prog = readTail head) :
-    soloRun ino (readTail head).length l = { l with prog := [] } := by
+    soloRun ino (readTail head).length l =
+      { l with prog := [], acc := { l.acc with tags := if head then l.acc.tags else getAttr ino.attrs .tags } } := by
   cases head <;> simp [readTail] at hp ⊢ <;> simp [soloRun, soloStep, hp, readAct]
 
 theorem soloStep_cons (ino : Inode) (l : Local) (a : Act) (rest : List Act) (hp : l.prog = a :: rest) :
@@ -91,7 +96,7 @@ theorem dropMeta_afterList (head : Bool) :
   cases head <;> rfl
 
 theorem solo_eval (ino : Inode) (head : Bool) (l : Local) (hp : l.prog = afterOpen head) (hacc : l.acc = {}) :
-    ∃ n, (soloRun ino n l).prog = [] ∧ (soloRun ino n l).acc = observe ino true ∧
+    ∃ n, (soloRun ino n l).prog = [] ∧ (soloRun ino n l).acc = accOf ino head ∧
          (soloRun ino n l).result = l.result ∧ (soloRun ino n l).fd = l.fd := by
   rw [afterOpen_eq] at hp
   -- rstat
@@ -99,7 +104,10 @@ theorem solo_eval (ino : Inode) (head : Bool) (l : Local) (hp : l.prog = afterOp
                                       acc := { l.acc with size := ino.data.len } } := by
     rw [soloStep_cons _ _ _ _ hp]; rfl
   have hget : ∀ l' : Local, l'.prog = .getetag :: readTail head →
-      soloRun ino (1 + (readTail head).length) l' = { l' with prog := [], acc := { l'.acc with etag := getAttr ino.attrs .etag } } := by
+      soloRun ino (1 + (readTail head).length) l' =
+        { l' with prog := [],
+                  acc := { l'.acc with etag := getAttr ino.attrs .etag,
+                                       tags := if head then l'.acc.tags else getAttr ino.attrs .tags } } := by
     intro l' hl'
     rw [soloRun_add]
     have : soloRun ino 1 l' = { l' with prog := readTail head, acc := { l'.acc with etag := getAttr ino.attrs .etag } } := by
@@ -115,7 +123,7 @@ theorem solo_eval (ino : Inode) (head : Bool) (l : Local) (hp : l.prog = afterOp
       rw [soloStep_cons _ _ _ _ rfl]
       simp only [readAct, h0, if_true, dropMeta_afterList]
     rw [h2, hget _ rfl]
-    simp [hacc, observe, hattrs, getAttr, metaOf, umetaKeys, hdrsOf, hdrAttrs]
+    cases head <;> simp [hacc, accOf, observe, hattrs, getAttr, metaOf, umetaKeys, hdrsOf, hdrAttrs]
   · refine ⟨3 + ((umetaKeys ino.attrs).length + (hdrAttrs.length + (1 + (readTail head).length))), ?_⟩
     rw [soloRun_add]
     have h3 : soloRun ino 3 l =
@@ -139,6 +147,6 @@ theorem solo_eval (ino : Inode) (head : Bool) (l : Local) (hp : l.prog = afterOp
     rw [h3, soloRun_add, solo_getmetas _ _ _ _ rfl, soloRun_add]
     have := solo_gethdrs ino hdrAttrs (.getetag :: readTail head)
     rw [this _ rfl, hget _ rfl]
-    simp [hacc, observe]
+    cases head <;> simp [hacc, accOf, observe]
 
 end Vgw.Model.Conc
